@@ -1,13 +1,1621 @@
-//! C20 — stub (to be implemented).
-use crate::engine::*;
-use serde_json::Value as J;
+//! C20 — currency cache is replaced atomically or not at all.
+//!
+//! Every scenario runs the real `rink` binary (built from /repo's working tree
+//! into harness/target-rink) in its own scratch HOME/XDG dirs against a
+//! scripted `rv-httpd`, optionally killed with SIGKILL at the entry of its
+//! N-th file-system syscall (strace fault injection) or while it waits for the
+//! next body byte (server-paced). Afterwards the cache bytes and a follow-up
+//! `rink` run (server refusing) are judged.
 
-pub fn run(_cx: &Cx) -> Report {
-    let mut rep = Report::new("not implemented");
-    rep.inconclusive = Some("not implemented".into());
+use crate::engine::*;
+use proptest::prelude::*;
+use serde_derive::{Deserialize, Serialize};
+use serde_json::{json, Value as J};
+use std::collections::{BTreeMap, BTreeSet};
+use std::os::unix::process::{CommandExt, ExitStatusExt};
+use std::path::{Path, PathBuf};
+use std::process::{Child, Command, Stdio};
+use std::sync::atomic::{AtomicU64, Ordering};
+use std::sync::Arc;
+use std::time::{Duration, Instant};
+
+pub const RULE: &str = "scenario = (prior cache state {absent, fresh, stale, unreadable JSON (stale), unreadable JSON (fresh)}, \
+server script {200 complete / chunked complete, 200 cut after k body bytes with FIN or RST, chunked cut mid-chunk, header cut, \
+3xx/4xx/5xx with various bodies, stall before headers / mid-body until the client gives up, refused connection}, entry \
+{rink EXPR, rink --fetch-currency}, kill {none, SIGKILL at entry of the N-th traced file syscall, SIGKILL while waiting for \
+body byte k+1}). Non-trivial = distinct scenario that has a prior cache file AND whose refresh was attempted and failed \
+(server contacted / connection refused, script not a complete 200) or was interrupted by the kill.";
+
+const SNAPSHOT: &str = "/repo/core/tests/currency.snapshot.json";
+const OLD_RATE: &str = "3";
+const NEW_RATE: &str = "7";
+const EXPR_PLAIN: &str = "3 foot -> m";
+const EXPR_MARKER: &str = "1 EUR -> USD";
+const PLAIN_ANSWER: &str = "0.9144 meter";
+const TRACE_FULL: &str =
+    "openat,write,fsync,fdatasync,rename,renameat,renameat2,unlink,unlinkat,close,mkdir,mkdirat,ftruncate,lseek,fcntl";
+const TRACE_REDUCED: &str = "openat,write,fsync,fdatasync,renameat,renameat2,unlinkat,close,mkdirat,ftruncate,lseek,fcntl";
+const WATCHDOG: Duration = Duration::from_secs(40);
+
+// ---------------------------------------------------------------------------
+// scenario
+// ---------------------------------------------------------------------------
+
+#[derive(Serialize, Deserialize, Clone, Copy, Debug, PartialEq, Eq, Hash, PartialOrd, Ord)]
+#[serde(rename_all = "snake_case")]
+pub enum Prior {
+    Absent,
+    Fresh,
+    Stale,
+    Unreadable,
+    UnreadableFresh,
+}
+pub const PRIORS: [Prior; 5] = [
+    Prior::Absent,
+    Prior::Fresh,
+    Prior::Stale,
+    Prior::Unreadable,
+    Prior::UnreadableFresh,
+];
+
+#[derive(Serialize, Deserialize, Clone, Copy, Debug, PartialEq, Eq, Hash, PartialOrd, Ord)]
+#[serde(rename_all = "snake_case")]
+pub enum Body {
+    Small,
+    Padded,
+}
+
+#[derive(Serialize, Deserialize, Clone, Copy, Debug, PartialEq, Eq, Hash, PartialOrd, Ord)]
+#[serde(rename_all = "snake_case")]
+pub enum ErrBody {
+    Empty,
+    Text,
+    NewSmall,
+}
+
+#[derive(Serialize, Deserialize, Clone, Debug, PartialEq, Eq, Hash)]
+#[serde(tag = "mode", rename_all = "snake_case")]
+pub enum Server {
+    Complete { body: Body },
+    ChunkedComplete { body: Body },
+    CutAfter { body: Body, k: u64, rst: bool },
+    ChunkedCutAfter { body: Body, k: u64 },
+    HeaderCut { k: u64, rst: bool },
+    Status { status: u16, body: ErrBody },
+    StallBeforeHeaders,
+    StallMidBody { body: Body, k: u64 },
+    Refused,
+}
+
+impl Server {
+    fn succeeds(&self) -> bool {
+        matches!(self, Server::Complete { .. } | Server::ChunkedComplete { .. })
+    }
+    fn name(&self) -> String {
+        match self {
+            Server::Complete { .. } => "200_complete".into(),
+            Server::ChunkedComplete { .. } => "200_chunked_complete".into(),
+            Server::CutAfter { rst, .. } => format!("200_cut_{}", if *rst { "rst" } else { "fin" }),
+            Server::ChunkedCutAfter { .. } => "200_chunked_cut".into(),
+            Server::HeaderCut { .. } => "header_cut".into(),
+            Server::Status { status, .. } => format!("status_{}xx", status / 100),
+            Server::StallBeforeHeaders => "stall_before_headers".into(),
+            Server::StallMidBody { .. } => "stall_mid_body".into(),
+            Server::Refused => "refused".into(),
+        }
+    }
+}
+
+#[derive(Serialize, Deserialize, Clone, Copy, Debug, PartialEq, Eq, Hash, PartialOrd, Ord)]
+#[serde(rename_all = "snake_case")]
+pub enum Entry {
+    Expr,
+    Fetch,
+}
+
+#[derive(Serialize, Deserialize, Clone, Debug, PartialEq, Eq, Hash)]
+#[serde(tag = "how", rename_all = "snake_case")]
+pub enum Kill {
+    None,
+    /// SIGKILL at the entry of the `when`-th call of `name` (per thread, strace inject)
+    Syscall { name: String, when: u32 },
+    /// SIGKILL once the server reports it has sent its k bytes and is stalling
+    ServerPaced,
+}
+
+#[derive(Serialize, Deserialize, Clone, Debug, PartialEq, Eq, Hash)]
+pub struct Scenario {
+    pub prior: Prior,
+    pub server: Server,
+    pub entry: Entry,
+    pub kill: Kill,
+}
+
+// ---------------------------------------------------------------------------
+// fixed data
+// ---------------------------------------------------------------------------
+
+pub struct Data {
+    pub old: Vec<u8>,
+    pub new_small: Vec<u8>,
+    pub new_padded: Vec<u8>,
+    pub unreadable: Vec<u8>,
+    pub err_text: Vec<u8>,
+}
+
+impl Data {
+    fn new_of(&self, b: Body) -> &Vec<u8> {
+        match b {
+            Body::Small => &self.new_small,
+            Body::Padded => &self.new_padded,
+        }
+    }
+    fn prior_bytes(&self, p: Prior) -> Option<&Vec<u8>> {
+        match p {
+            Prior::Absent => None,
+            Prior::Fresh | Prior::Stale => Some(&self.old),
+            Prior::Unreadable | Prior::UnreadableFresh => Some(&self.unreadable),
+        }
+    }
+}
+
+fn with_marker(snap: &J, rate: &str, pads: usize, pad_len: usize) -> Result<Vec<u8>, String> {
+    let mut v = snap.clone();
+    let arr = v.as_array_mut().ok_or("snapshot is not a JSON array")?;
+    let usd = arr
+        .iter_mut()
+        .find(|e| e["name"] == "USD")
+        .ok_or("snapshot has no USD entry")?;
+    usd["expr"] = json!(format!("(1 / {}) EUR", rate));
+    for i in 0..pads {
+        let unit = format!("pad{:04}-", i);
+        let doc: String = unit.repeat(pad_len / unit.len());
+        arr.push(json!({"name": format!("rvpad{:04}", i), "doc": doc, "category": null, "type": "unit", "expr": "1"}));
+    }
+    serde_json::to_vec_pretty(&v).map_err(|e| e.to_string())
+}
+
+fn build_data() -> Result<Data, String> {
+    let text = std::fs::read_to_string(SNAPSHOT).map_err(|e| format!("cannot read {}: {}", SNAPSHOT, e))?;
+    let snap: J = serde_json::from_str(&text).map_err(|e| format!("snapshot does not parse: {}", e))?;
+    let old = with_marker(&snap, OLD_RATE, 4, 10_000)?;
+    let new_small = with_marker(&snap, NEW_RATE, 0, 0)?;
+    let new_padded = with_marker(&snap, NEW_RATE, 30, 10_000)?;
+    let unreadable = old[..old.len() / 2].to_vec();
+    Ok(Data {
+        old,
+        new_small,
+        new_padded,
+        unreadable,
+        err_text: b"<html><body><h1>error</h1>the currency service is unavailable</body></html>\n".to_vec(),
+    })
+}
+
+// ---------------------------------------------------------------------------
+// setup / per-thread environment
+// ---------------------------------------------------------------------------
+
+pub struct Setup {
+    pub rink: PathBuf,
+    pub httpd: PathBuf,
+    /// Some(trace set) when strace fault injection works here
+    pub strace: Option<String>,
+    pub strace_note: String,
+    pub data: Data,
+}
+
+fn locate_rink() -> Result<PathBuf, String> {
+    if let Ok(p) = std::env::var("RV_RINK_BIN") {
+        let p = PathBuf::from(p);
+        return if p.is_file() { Ok(p) } else { Err(format!("RV_RINK_BIN={} is not a file", p.display())) };
+    }
+    let mut cands = vec![];
+    if let Ok(exe) = std::env::current_exe() {
+        // <root>/harness/target/release/rv -> <root>/harness/target-rink/debug/rink
+        if let Some(h) = exe.parent().and_then(|p| p.parent()).and_then(|p| p.parent()) {
+            cands.push(h.join("target-rink/debug/rink"));
+        }
+    }
+    cands.push(PathBuf::from("/verif/harness/target-rink/debug/rink"));
+    for c in &cands {
+        if c.is_file() {
+            return Ok(c.clone());
+        }
+    }
+    Err(format!("rink binary not found (looked at {:?}); run /verif/check --build", cands))
+}
+
+fn locate_httpd() -> Result<PathBuf, String> {
+    let exe = std::env::current_exe().map_err(|e| e.to_string())?;
+    let p = exe.parent().unwrap_or(Path::new(".")).join("rv-httpd");
+    if p.is_file() {
+        Ok(p)
+    } else {
+        Err(format!("{} not found", p.display()))
+    }
+}
+
+static COUNTER: AtomicU64 = AtomicU64::new(0);
+
+fn scratch(tag: &str) -> Result<PathBuf, String> {
+    let n = COUNTER.fetch_add(1, Ordering::SeqCst);
+    let d = std::env::temp_dir().join(format!("rv-c20-{}-{}{}", std::process::id(), tag, n));
+    let _ = std::fs::remove_dir_all(&d);
+    std::fs::create_dir_all(&d).map_err(|e| format!("mkdir {}: {}", d.display(), e))?;
+    Ok(d)
+}
+
+struct DirGuard(PathBuf);
+impl Drop for DirGuard {
+    fn drop(&mut self) {
+        if std::env::var("RV_C20_KEEP").is_err() {
+            let _ = std::fs::remove_dir_all(&self.0);
+        }
+    }
+}
+
+pub struct RunOut {
+    pub code: Option<i32>,
+    pub signal: Option<i32>,
+    pub stdout: String,
+    pub stderr: String,
+}
+
+impl RunOut {
+    fn all(&self) -> String {
+        format!("{}\n{}", self.stdout, self.stderr)
+    }
+    fn status(&self) -> String {
+        match (self.code, self.signal) {
+            (Some(c), _) => format!("exit {}", c),
+            (_, Some(s)) => format!("signal {}", s),
+            _ => "?".into(),
+        }
+    }
+}
+
+fn strip_ansi(s: &str) -> String {
+    let mut out = String::with_capacity(s.len());
+    let mut it = s.chars().peekable();
+    while let Some(c) = it.next() {
+        if c == '\u{1b}' && it.peek() == Some(&'[') {
+            it.next();
+            for d in it.by_ref() {
+                if d.is_ascii_alphabetic() {
+                    break;
+                }
+            }
+        } else {
+            out.push(c);
+        }
+    }
+    out
+}
+
+fn kill_group(ch: &mut Child) {
+    unsafe {
+        libc::kill(-(ch.id() as i32), libc::SIGKILL);
+    }
+    let _ = ch.kill();
+    let _ = ch.wait();
+}
+
+fn wait_child(ch: &mut Child, limit: Duration) -> Result<std::process::ExitStatus, String> {
+    let end = Instant::now() + limit;
+    loop {
+        match ch.try_wait() {
+            Ok(Some(s)) => return Ok(s),
+            Ok(None) => {}
+            Err(e) => return Err(format!("wait: {}", e)),
+        }
+        if Instant::now() > end {
+            kill_group(ch);
+            return Err("watchdog".into());
+        }
+        std::thread::sleep(Duration::from_millis(2));
+    }
+}
+
+/// the directories of one rink "home"
+struct Home {
+    dir: PathBuf,
+}
+
+impl Home {
+    fn new(dir: &Path) -> Result<Home, String> {
+        for d in ["cfg/rink", "cache", "cwd"] {
+            std::fs::create_dir_all(dir.join(d)).map_err(|e| format!("mkdir: {}", e))?;
+        }
+        Ok(Home { dir: dir.to_path_buf() })
+    }
+    fn cache_dir(&self) -> PathBuf {
+        self.dir.join("cache/rink")
+    }
+    fn cache_file(&self) -> PathBuf {
+        self.cache_dir().join("currency.json")
+    }
+    fn write_config(&self, port: u16) -> Result<(), String> {
+        let text = format!(
+            "[currency]\nendpoint = \"http://127.0.0.1:{}/data/currency.json\"\ntimeout = \"500ms\"\ncache_duration = \"1h\"\n",
+            port
+        );
+        std::fs::write(self.dir.join("cfg/rink/config.toml"), text).map_err(|e| format!("write config: {}", e))
+    }
+    fn command(&self, program: &Path) -> Command {
+        let mut c = Command::new(program);
+        c.env_clear()
+            .env("HOME", &self.dir)
+            .env("XDG_CONFIG_HOME", self.dir.join("cfg"))
+            .env("XDG_CACHE_HOME", self.dir.join("cache"))
+            .env("PATH", "/usr/local/bin:/usr/bin:/bin")
+            .env("NO_COLOR", "1")
+            .env("TZ", "UTC")
+            .env("RUST_BACKTRACE", "0")
+            .current_dir(self.dir.join("cwd"))
+            .stdin(Stdio::null())
+            .process_group(0);
+        c
+    }
+    fn spawn(&self, mut c: Command, tag: &str) -> Result<(Child, PathBuf, PathBuf), String> {
+        let o = self.dir.join(format!("{}.out", tag));
+        let e = self.dir.join(format!("{}.err", tag));
+        let fo = std::fs::File::create(&o).map_err(|e| e.to_string())?;
+        let fe = std::fs::File::create(&e).map_err(|e| e.to_string())?;
+        c.stdout(fo).stderr(fe);
+        let ch = c.spawn().map_err(|e| format!("spawn {:?}: {}", c.get_program(), e))?;
+        Ok((ch, o, e))
+    }
+    fn collect(&self, st: std::process::ExitStatus, o: &Path, e: &Path) -> RunOut {
+        let rd = |p: &Path| strip_ansi(&String::from_utf8_lossy(&std::fs::read(p).unwrap_or_default()));
+        RunOut {
+            code: st.code(),
+            signal: st.signal(),
+            stdout: rd(o),
+            stderr: rd(e),
+        }
+    }
+    fn run(&self, c: Command, tag: &str) -> Result<RunOut, String> {
+        let (mut ch, o, e) = self.spawn(c, tag)?;
+        let st = wait_child(&mut ch, WATCHDOG)?;
+        Ok(self.collect(st, &o, &e))
+    }
+}
+
+fn set_mtime_ago(path: &Path, secs_ago: i64) -> Result<(), String> {
+    use std::os::unix::ffi::OsStrExt;
+    let now = std::time::SystemTime::now()
+        .duration_since(std::time::UNIX_EPOCH)
+        .map_err(|e| e.to_string())?
+        .as_secs() as i64;
+    let ts = libc::timespec {
+        tv_sec: (now - secs_ago) as libc::time_t,
+        tv_nsec: 0,
+    };
+    let times = [ts, ts];
+    let c = std::ffi::CString::new(path.as_os_str().as_bytes()).map_err(|e| e.to_string())?;
+    let r = unsafe { libc::utimensat(libc::AT_FDCWD, c.as_ptr(), times.as_ptr(), 0) };
+    if r != 0 {
+        return Err(format!("utimensat: {}", std::io::Error::last_os_error()));
+    }
+    Ok(())
+}
+
+/// a TCP port that is bound but never listens: connect() is refused and
+/// nobody else can be handed the port while we hold it
+struct RefusedPort {
+    fd: i32,
+    port: u16,
+}
+
+impl RefusedPort {
+    fn new() -> Result<RefusedPort, String> {
+        unsafe {
+            let fd = libc::socket(libc::AF_INET, libc::SOCK_STREAM | libc::SOCK_CLOEXEC, 0);
+            if fd < 0 {
+                return Err(format!("socket: {}", std::io::Error::last_os_error()));
+            }
+            let mut a: libc::sockaddr_in = std::mem::zeroed();
+            a.sin_family = libc::AF_INET as libc::sa_family_t;
+            a.sin_port = 0;
+            a.sin_addr.s_addr = u32::from_be_bytes([127, 0, 0, 1]).to_be();
+            let len = std::mem::size_of::<libc::sockaddr_in>() as libc::socklen_t;
+            if libc::bind(fd, &a as *const _ as *const libc::sockaddr, len) != 0 {
+                let e = std::io::Error::last_os_error();
+                libc::close(fd);
+                return Err(format!("bind: {}", e));
+            }
+            let mut l = len;
+            if libc::getsockname(fd, &mut a as *mut _ as *mut libc::sockaddr, &mut l) != 0 {
+                let e = std::io::Error::last_os_error();
+                libc::close(fd);
+                return Err(format!("getsockname: {}", e));
+            }
+            Ok(RefusedPort {
+                fd,
+                port: u16::from_be(a.sin_port),
+            })
+        }
+    }
+}
+
+impl Drop for RefusedPort {
+    fn drop(&mut self) {
+        unsafe {
+            libc::close(self.fd);
+        }
+    }
+}
+
+struct ServerProc {
+    child: Child,
+    port: u16,
+    log: PathBuf,
+}
+
+impl ServerProc {
+    fn log_text(&self) -> String {
+        std::fs::read_to_string(&self.log).unwrap_or_default()
+    }
+}
+
+impl Drop for ServerProc {
+    fn drop(&mut self) {
+        let _ = self.child.kill();
+        let _ = self.child.wait();
+    }
+}
+
+pub struct Env {
+    pub setup: Arc<Setup>,
+    pub known: BTreeSet<String>,
+    dir: PathBuf,
+    refused: Option<RefusedPort>,
+    broken: Option<String>,
+}
+
+impl Drop for Env {
+    fn drop(&mut self) {
+        let _ = std::fs::remove_dir_all(&self.dir);
+    }
+}
+
+pub fn mk_env(setup: Arc<Setup>, known: BTreeSet<String>) -> Env {
+    let mut broken = None;
+    let dir = match scratch("env") {
+        Ok(d) => d,
+        Err(e) => {
+            broken = Some(e);
+            PathBuf::from("/nonexistent")
+        }
+    };
+    if broken.is_none() {
+        let d = &setup.data;
+        for (n, b) in [
+            ("new_small.json", &d.new_small),
+            ("new_padded.json", &d.new_padded),
+            ("err.txt", &d.err_text),
+            ("empty", &Vec::new()),
+        ] {
+            if let Err(e) = std::fs::write(dir.join(n), b) {
+                broken = Some(format!("write body: {}", e));
+            }
+        }
+    }
+    let refused = match RefusedPort::new() {
+        Ok(r) => Some(r),
+        Err(e) => {
+            broken = Some(e);
+            None
+        }
+    };
+    Env {
+        setup,
+        known,
+        dir,
+        refused,
+        broken,
+    }
+}
+
+impl Env {
+    fn body_path(&self, b: Body) -> PathBuf {
+        self.dir.join(match b {
+            Body::Small => "new_small.json",
+            Body::Padded => "new_padded.json",
+        })
+    }
+
+    fn script(&self, sv: &Server, log: &Path) -> Option<J> {
+        let log = log.to_string_lossy().to_string();
+        let bp = |b: Body| self.body_path(b).to_string_lossy().to_string();
+        let close = |rst: bool| if rst { "rst" } else { "fin" };
+        Some(match sv {
+            Server::Complete { body } => json!({"status":200,"body_file":bp(*body),"mode":"complete","log":log}),
+            Server::ChunkedComplete { body } => {
+                json!({"status":200,"body_file":bp(*body),"mode":"chunked_complete","log":log})
+            }
+            Server::CutAfter { body, k, rst } => {
+                json!({"status":200,"body_file":bp(*body),"mode":"cut_after","k":k,"close":close(*rst),"log":log})
+            }
+            Server::ChunkedCutAfter { body, k } => {
+                json!({"status":200,"body_file":bp(*body),"mode":"chunked_cut_after","k":k,"log":log})
+            }
+            Server::HeaderCut { k, rst } => json!({"status":200,"body_file":bp(Body::Small),"mode":"header_cut",
+                "k":k,"close":close(*rst),"log":log}),
+            Server::Status { status, body } => {
+                let f = match body {
+                    ErrBody::Empty => "empty",
+                    ErrBody::Text => "err.txt",
+                    ErrBody::NewSmall => "new_small.json",
+                };
+                let mut j = json!({"status":status,"body_file":self.dir.join(f).to_string_lossy(),
+                    "mode":"status_only","log":log});
+                if *status / 100 == 3 {
+                    j["location"] = json!("/data/moved.json");
+                }
+                j
+            }
+            Server::StallBeforeHeaders => json!({"status":200,"mode":"stall_before_headers","log":log}),
+            Server::StallMidBody { body, k } => {
+                json!({"status":200,"body_file":bp(*body),"mode":"stall_mid_body","k":k,"log":log})
+            }
+            Server::Refused => return None,
+        })
+    }
+
+    fn start_server(&self, sv: &Server, dir: &Path) -> Result<Option<ServerProc>, String> {
+        let log = dir.join("server.log");
+        let script = match self.script(sv, &log) {
+            Some(s) => s,
+            None => return Ok(None),
+        };
+        let sp = dir.join("script.json");
+        std::fs::write(&sp, script.to_string()).map_err(|e| e.to_string())?;
+        let mut child = Command::new(&self.setup.httpd)
+            .arg(&sp)
+            .stdin(Stdio::null())
+            .stdout(Stdio::piped())
+            .stderr(Stdio::null())
+            .spawn()
+            .map_err(|e| format!("spawn rv-httpd: {}", e))?;
+        let mut line = String::new();
+        {
+            use std::io::BufRead;
+            let out = child.stdout.take().ok_or("no stdout")?;
+            let mut r = std::io::BufReader::new(out);
+            let _ = r.read_line(&mut line);
+        }
+        match line.trim().parse::<u16>() {
+            Ok(port) if port != 0 => Ok(Some(ServerProc { child, port, log })),
+            _ => {
+                let _ = child.kill();
+                let _ = child.wait();
+                Err(format!("rv-httpd did not report a port (got {:?})", line))
+            }
+        }
+    }
+}
+
+fn rink_args(entry: Entry) -> Vec<&'static str> {
+    match entry {
+        Entry::Expr => vec![EXPR_PLAIN, EXPR_MARKER],
+        Entry::Fetch => vec!["--fetch-currency"],
+    }
+}
+
+fn strace_command(home: &Home, rink: &Path, set: &str, log: &Path, inject: Option<(&str, u32)>, args: &[&str]) -> Command {
+    let mut c = home.command(Path::new("strace"));
+    c.args(["-f", "-y", "-s", "16", "-o"]).arg(log).arg("-e").arg(format!("trace={}", set));
+    if let Some((name, when)) = inject {
+        c.arg("-e").arg(format!("inject={}:signal=KILL:when={}", name, when));
+    }
+    c.arg(rink).args(args);
+    c
+}
+
+/// does `strace -e inject=…:signal=KILL` work here? returns the usable trace set
+fn probe_strace(rink: &Path) -> (Option<String>, String) {
+    let dir = match scratch("probe") {
+        Ok(d) => d,
+        Err(e) => return (None, e),
+    };
+    let _g = DirGuard(dir.clone());
+    let home = match Home::new(&dir) {
+        Ok(h) => h,
+        Err(e) => return (None, e),
+    };
+    let mut why = String::new();
+    for set in [TRACE_FULL, TRACE_REDUCED] {
+        let log = dir.join("probe.strace");
+        let c = strace_command(&home, rink, set, &log, Some(("write", 1)), &["--config-path"]);
+        match home.run(c, "probe") {
+            Ok(o) if o.signal == Some(9) && o.stdout.trim().is_empty() => {
+                return (Some(set.to_string()), format!("strace inject works (trace set: {})", set));
+            }
+            Ok(o) => why = format!("strace probe: {} stdout={:?} stderr={:?}", o.status(), o.stdout, o.stderr),
+            Err(e) => why = format!("strace probe: {}", e),
+        }
+    }
+    (None, why)
+}
+
+pub fn setup() -> Result<Setup, String> {
+    let rink = locate_rink()?;
+    let httpd = locate_httpd()?;
+    let data = build_data()?;
+    let (strace, strace_note) = if std::env::var("RV_C20_NO_STRACE").is_ok() {
+        (None, "strace disabled by RV_C20_NO_STRACE".to_string())
+    } else {
+        probe_strace(&rink)
+    };
+    Ok(Setup {
+        rink,
+        httpd,
+        strace,
+        strace_note,
+        data,
+    })
+}
+
+// ---------------------------------------------------------------------------
+// strace log parsing
+// ---------------------------------------------------------------------------
+
+/// (pid, syscall name, rest of line) for syscall-entry lines
+fn parse_line(line: &str) -> Option<(&str, &str, &str)> {
+    let (pid, rest) = line.split_once(' ')?;
+    if !pid.bytes().all(|b| b.is_ascii_digit()) {
+        return None;
+    }
+    let rest = rest.trim_start();
+    let open = rest.find('(')?;
+    let name = &rest[..open];
+    if name.is_empty() || !name.bytes().all(|b| b.is_ascii_alphanumeric() || b == b'_') {
+        return None;
+    }
+    Some((pid, name, rest))
+}
+
+fn target_of(name: &str, rest: &str, cache_dir: &str) -> &'static str {
+    if !rest.contains(cache_dir) {
+        if rest.contains("(1<") || rest.contains("(2<") {
+            return "stdio";
+        }
+        return "other";
+    }
+    if name.starts_with("rename") {
+        return "commit";
+    }
+    let file = format!("{}/currency.json", cache_dir);
+    let tmp = format!("{}/currency.", cache_dir);
+    let without_file = rest.replace(&file, "");
+    if without_file.contains(&tmp) {
+        "tmp"
+    } else if rest.contains(&file) {
+        "cache"
+    } else {
+        "cachedir"
+    }
+}
+
+#[derive(Clone, Debug)]
+pub struct KillPoint {
+    pub name: String,
+    pub when: u32,
+    pub label: String,
+    pub essential: bool,
+}
+
+fn kill_points(log: &str, cache_dir: &str) -> Vec<KillPoint> {
+    let mut main_pid: Option<String> = None;
+    let mut counts: BTreeMap<String, u32> = BTreeMap::new();
+    // (name, when, target)
+    let mut calls: Vec<(String, u32, &'static str)> = vec![];
+    for line in log.lines() {
+        let (pid, name, rest) = match parse_line(line) {
+            Some(x) => x,
+            None => continue,
+        };
+        let mp = main_pid.get_or_insert_with(|| pid.to_string());
+        if pid != mp {
+            continue;
+        }
+        let c = counts.entry(name.to_string()).or_insert(0);
+        *c += 1;
+        calls.push((name.to_string(), *c, target_of(name, rest, cache_dir)));
+    }
+    let touches = |t: &str| matches!(t, "tmp" | "cache" | "cachedir" | "commit");
+    let first = match calls.iter().position(|c| touches(c.2)) {
+        Some(i) => i,
+        None => return vec![],
+    };
+    let last = calls.iter().rposition(|c| touches(c.2)).unwrap_or(first);
+    let lo = first.saturating_sub(1);
+    let hi = (last + 3).min(calls.len() - 1);
+    let first_tmp_write = calls.iter().position(|c| c.0 == "write" && c.2 == "tmp");
+    let last_tmp_write = calls.iter().rposition(|c| c.0 == "write" && c.2 == "tmp");
+    let commit = calls.iter().position(|c| c.2 == "commit");
+    let mut out = vec![];
+    for i in lo..=hi {
+        let (name, when, t) = &calls[i];
+        if i > lo && i < last && !touches(t) {
+            continue; // unrelated call in the middle (socket close etc.): same disk state as the next one
+        }
+        let essential = (name == "openat" && *t == "tmp")
+            || name == "fsync"
+            || name == "fdatasync"
+            || *t == "commit"
+            || name.starts_with("unlink")
+            || Some(i) == first_tmp_write
+            || Some(i) == last_tmp_write
+            || commit.map(|c| i == c + 1).unwrap_or(false)
+            || i == hi;
+        out.push(KillPoint {
+            name: name.clone(),
+            when: *when,
+            label: format!("{}:{}", name, t),
+            essential,
+        });
+    }
+    out
+}
+
+/// where was the process killed (label) according to the strace log of a kill run
+fn killed_at(log: &str, cache_dir: &str) -> String {
+    let mut last = None;
+    // pid -> label of its latest "<unfinished ...>" entry
+    let mut pending: BTreeMap<String, String> = BTreeMap::new();
+    for line in log.lines() {
+        let l = line.trim_end();
+        if let Some((pid, name, rest)) = parse_line(l) {
+            let label = format!("{}:{}", name, target_of(name, rest, cache_dir));
+            if l.ends_with("= ?") {
+                last = Some(label);
+            } else if l.ends_with("<unfinished ...>") {
+                pending.insert(pid.to_string(), label);
+            }
+        } else if l.ends_with("= ?") && l.contains(" resumed>") {
+            if let Some((pid, _)) = l.split_once(' ') {
+                if let Some(lbl) = pending.get(pid) {
+                    last = Some(lbl.clone());
+                }
+            }
+        }
+    }
+    last.unwrap_or_else(|| "unknown".into())
+}
+
+// ---------------------------------------------------------------------------
+// running and judging one scenario
+// ---------------------------------------------------------------------------
+
+#[derive(Clone, Copy, PartialEq, Eq, Debug)]
+enum Kind {
+    Absent,
+    Old,
+    New,
+    Garbage,
+}
+
+fn kind_of(d: &Data, bytes: &Option<Vec<u8>>) -> Kind {
+    match bytes {
+        None => Kind::Absent,
+        Some(b) if *b == d.old => Kind::Old,
+        Some(b) if *b == d.new_small || *b == d.new_padded => Kind::New,
+        Some(_) => Kind::Garbage,
+    }
+}
+
+fn common_prefix(a: &[u8], b: &[u8]) -> usize {
+    a.iter().zip(b.iter()).take_while(|(x, y)| x == y).count()
+}
+
+fn marker_line(stdout: &str) -> Option<String> {
+    let mut it = stdout.lines();
+    while let Some(l) = it.next() {
+        if l.trim() == format!("> {}", EXPR_MARKER) {
+            return it.next().map(|s| s.trim().to_string());
+        }
+    }
+    None
+}
+
+/// Err((signature, detail)) when the run's answers do not match the cache kind
+fn judge_answers(out: &RunOut, kind: Kind, which: &str) -> Result<(), (String, String)> {
+    if out.code != Some(0) {
+        return Err((
+            format!("{}-rink-did-not-start", which),
+            format!("`rink '{}' '{}'` ended with {}; stderr: {}", EXPR_PLAIN, EXPR_MARKER, out.status(), tail(&out.stderr)),
+        ));
+    }
+    if !out.stdout.contains(PLAIN_ANSWER) {
+        return Err((
+            format!("{}-non-currency-query-failed", which),
+            format!("stdout lacks `{}`: {}", PLAIN_ANSWER, tail(&out.stdout)),
+        ));
+    }
+    let m = marker_line(&out.stdout).unwrap_or_default();
+    let ok = match kind {
+        Kind::Old => m == format!("{} USD (money)", OLD_RATE),
+        Kind::New => m == format!("{} USD (money)", NEW_RATE),
+        Kind::Absent | Kind::Garbage => m.starts_with("No such unit"),
+    };
+    if ok {
+        return Ok(());
+    }
+    if kind == Kind::Old && m.starts_with("No such unit") {
+        return Err((
+            format!("{}-stale-fallback-missing", which),
+            format!("cache holds the complete previous data but `{}` answered `{}`; output: {}", EXPR_MARKER, m, tail(&out.stdout)),
+        ));
+    }
+    Err((
+        format!("{}-marker-mismatch", which),
+        format!("cache is {:?} but `{}` answered `{}`", kind, EXPR_MARKER, m),
+    ))
+}
+
+fn tail(s: &str) -> String {
+    let t = s.trim();
+    let t: String = t.chars().filter(|c| *c != '\r').collect();
+    if t.len() > 400 {
+        let mut i = t.len() - 400;
+        while !t.is_char_boundary(i) {
+            i += 1;
+        }
+        format!("…{}", &t[i..])
+    } else {
+        t
+    }
+}
+
+fn infra(st: &mut Stats, what: &str, detail: &str) -> CaseResult {
+    st.class(&format!("infra:{}", what));
+    if std::env::var("VERIF_VERBOSE").is_ok() {
+        eprintln!("[C20] infrastructure: {}: {}", what, detail);
+    }
+    st.notes
+        .entry(format!("infra_example:{}", what))
+        .or_insert_with(|| json!(detail));
+    Ok(())
+}
+
+pub fn execute(env: &Env, sc: &Scenario, st: &mut Stats) -> CaseResult {
+    if let Some(b) = &env.broken {
+        return infra(st, "env", b);
+    }
+    let dir = match scratch("") {
+        Ok(d) => d,
+        Err(e) => return infra(st, "scratch", &e),
+    };
+    let _guard = DirGuard(dir.clone());
+    match execute_in(env, sc, st, &dir) {
+        Ok(()) => Ok(()),
+        Err(Fail::Infra(what, detail)) => infra(st, &what, &detail),
+        Err(Fail::Violation(sig, detail)) => {
+            let text = serde_json::to_string(sc).unwrap_or_default();
+            if env.known.contains(&sig) {
+                st.known(&sig, &text);
+                Ok(())
+            } else {
+                Err(format!("[{}] {}: {}", sig, text, detail))
+            }
+        }
+    }
+}
+
+enum Fail {
+    Infra(String, String),
+    Violation(String, String),
+}
+
+fn inf<T>(what: &str) -> impl Fn(String) -> Result<T, Fail> + '_ {
+    move |e| Err(Fail::Infra(what.to_string(), e))
+}
+
+fn execute_in(env: &Env, sc: &Scenario, st: &mut Stats, dir: &Path) -> Result<(), Fail> {
+    let su = &env.setup;
+    let d = &su.data;
+    let home = Home::new(dir).or_else(inf("scratch"))?;
+    let cache_dir = home.cache_dir();
+    let cache_dir_s = cache_dir.to_string_lossy().to_string();
+    let cache_file = home.cache_file();
+
+    // --- prior state
+    let prior = d.prior_bytes(sc.prior).cloned();
+    if let Some(p) = &prior {
+        std::fs::create_dir_all(&cache_dir).map_err(|e| e.to_string()).or_else(inf("scratch"))?;
+        std::fs::write(&cache_file, p).map_err(|e| e.to_string()).or_else(inf("scratch"))?;
+        let ago = match sc.prior {
+            Prior::Fresh | Prior::UnreadableFresh => 60,
+            _ => 2 * 3600,
+        };
+        set_mtime_ago(&cache_file, ago).or_else(inf("mtime"))?;
+    }
+
+    // --- server
+    let server = env.start_server(&sc.server, dir).or_else(inf("server"))?;
+    let refused_port = env.refused.as_ref().map(|r| r.port).unwrap_or(1);
+    let port = server.as_ref().map(|s| s.port).unwrap_or(refused_port);
+    home.write_config(port).or_else(inf("scratch"))?;
+
+    // --- the run under test
+    let args = rink_args(sc.entry);
+    let mut killed = false;
+    let mut kill_label = String::new();
+    let out: Option<RunOut> = match &sc.kill {
+        Kill::None => {
+            let mut c = home.command(&su.rink);
+            c.args(&args);
+            Some(home.run(c, "run").or_else(inf("watchdog"))?)
+        }
+        Kill::Syscall { name, when } => {
+            let set = match &su.strace {
+                Some(s) => s.clone(),
+                None => return Err(Fail::Infra("strace".into(), su.strace_note.clone())),
+            };
+            if !name.bytes().all(|b| b.is_ascii_alphanumeric() || b == b'_') || !set.split(',').any(|s| s == name) {
+                return Err(Fail::Infra("bad-case".into(), format!("syscall {:?} not in the trace set", name)));
+            }
+            let log = dir.join("run.strace");
+            let c = strace_command(&home, &su.rink, &set, &log, Some((name, *when)), &args);
+            let o = home.run(c, "run").or_else(inf("watchdog"))?;
+            if o.signal == Some(9) {
+                killed = true;
+                let text = std::fs::read_to_string(&log).unwrap_or_default();
+                kill_label = killed_at(&text, &cache_dir_s);
+                st.class(&format!("kill:strace:at={}", kill_label));
+                None
+            } else {
+                if o.code.is_none() || o.stderr.contains("strace:") {
+                    return Err(Fail::Infra("strace".into(), format!("{}: {}", o.status(), tail(&o.stderr))));
+                }
+                st.class("kill:strace:not_reached");
+                Some(o)
+            }
+        }
+        Kill::ServerPaced => {
+            let srv = match (&server, &sc.server) {
+                (Some(s), Server::StallMidBody { .. }) | (Some(s), Server::StallBeforeHeaders) => s,
+                _ => return Err(Fail::Infra("bad-case".into(), "server-paced kill needs a stalling server".into())),
+            };
+            let mut c = home.command(&su.rink);
+            c.args(&args);
+            let (mut ch, o, e) = home.spawn(c, "run").or_else(inf("spawn"))?;
+            let end = Instant::now() + Duration::from_secs(20);
+            let mut exited = None;
+            loop {
+                if srv.log_text().contains("SENT ") {
+                    break;
+                }
+                if let Ok(Some(s)) = ch.try_wait() {
+                    exited = Some(s);
+                    break;
+                }
+                if Instant::now() > end {
+                    kill_group(&mut ch);
+                    return Err(Fail::Infra("watchdog".into(), "server never reached its stall".into()));
+                }
+                std::thread::sleep(Duration::from_millis(1));
+            }
+            if exited.is_none() {
+                // the client now waits for byte k+1 (or is still writing what it got)
+                std::thread::sleep(Duration::from_millis(15));
+                if let Ok(Some(s)) = ch.try_wait() {
+                    exited = Some(s);
+                }
+            }
+            match exited {
+                Some(s) => {
+                    st.class("kill:server_paced:client_gone_first");
+                    Some(home.collect(s, &o, &e))
+                }
+                None => {
+                    kill_group(&mut ch);
+                    killed = true;
+                    kill_label = "recv-wait".into();
+                    st.class("kill:server_paced:killed");
+                    None
+                }
+            }
+        }
+    };
+    let contacted = server.as_ref().map(|s| s.log_text().contains("REQ ")).unwrap_or(false);
+    drop(server);
+
+    // --- observe
+    let fin = std::fs::read(&cache_file).ok();
+    let mut leftovers = vec![];
+    if let Ok(rd) = std::fs::read_dir(&cache_dir) {
+        for e in rd.flatten() {
+            let n = e.file_name().to_string_lossy().to_string();
+            if n != "currency.json" {
+                leftovers.push(n);
+            }
+        }
+    }
+    if !leftovers.is_empty() {
+        st.class(if killed { "leftover_tempfile_after_kill" } else { "leftover_tempfile_without_kill" });
+    }
+    let served: Option<&Vec<u8>> = match &sc.server {
+        Server::Complete { body }
+        | Server::ChunkedComplete { body }
+        | Server::CutAfter { body, .. }
+        | Server::ChunkedCutAfter { body, .. }
+        | Server::StallMidBody { body, .. } => Some(d.new_of(*body)),
+        Server::Status { body: ErrBody::NewSmall, .. } => Some(&d.new_small),
+        _ => None,
+    };
+    let is_prior = fin == prior;
+    let is_new = match (&fin, served) {
+        (Some(f), Some(s)) => f == s,
+        _ => false,
+    };
+    let all_text = out.as_ref().map(|o| o.all()).unwrap_or_default();
+    let attempted = contacted || all_text.contains("Couldn't connect") || all_text.contains("Could not connect");
+    let failing = !sc.server.succeeds();
+
+    // --- statistics
+    st.eval();
+    let outcome = if is_prior {
+        if prior.is_none() {
+            "still_absent"
+        } else {
+            "kept_prior"
+        }
+    } else if is_new {
+        "replaced_by_new"
+    } else {
+        "OTHER"
+    };
+    st.class(&format!("prior={:?}|{}", sc.prior, outcome));
+    st.class(&format!("server={}", sc.server.name()));
+    st.class(&format!("entry={:?}", sc.entry));
+    if killed {
+        st.class(&format!("killed|{}", outcome));
+    } else if !attempted {
+        st.class("refresh:not_attempted");
+    } else if is_new {
+        st.class("refresh:succeeded");
+    } else {
+        st.class("refresh:failed");
+    }
+    let nontrivial = prior.is_some() && (killed || (failing && attempted));
+    let key = serde_json::to_string(sc).unwrap_or_default();
+    if nontrivial {
+        st.nontrivial(&key);
+        st.nt_sample(|| json!({"scenario": sc, "outcome": outcome, "killed_at": kill_label}));
+    } else {
+        st.sample(|| json!({"scenario": sc, "outcome": outcome}));
+    }
+
+    // --- R1: previous or new, never anything else
+    if !is_prior && !is_new {
+        let f = fin.clone().unwrap_or_default();
+        let (sig, what) = if fin.is_none() {
+            ("cache-file-removed", "the cache file existed before and is gone now".to_string())
+        } else if f.is_empty() {
+            ("cache-truncated-to-empty", "the cache file is now empty".to_string())
+        } else if f == d.err_text {
+            ("cache-holds-error-body", "the cache file now holds the body of the error response".to_string())
+        } else if served.map(|s| f.len() < s.len() && s.starts_with(&f)).unwrap_or(false) {
+            ("cache-partial-new", format!("the cache file holds only the first {} of {} new bytes", f.len(), served.unwrap().len()))
+        } else {
+            (
+                "cache-mixed",
+                format!(
+                    "{} bytes; common prefix with previous = {}, with new = {}",
+                    f.len(),
+                    prior.as_ref().map(|p| common_prefix(p, &f)).unwrap_or(0),
+                    served.map(|s| common_prefix(s, &f)).unwrap_or(0)
+                ),
+            )
+        };
+        return Err(Fail::Violation(
+            sig.into(),
+            format!(
+                "after the scenario rink/currency.json is neither the complete previous contents ({}) nor the complete new contents: {} [run: {}; killed_at: {}]",
+                prior.as_ref().map(|p| format!("{} bytes", p.len())).unwrap_or_else(|| "absent".into()),
+                what,
+                out.as_ref().map(|o| o.status()).unwrap_or_else(|| "killed".into()),
+                kill_label
+            ),
+        ));
+    }
+    let kind = kind_of(d, &fin);
+
+    if let Some(o) = &out {
+        // R2: a failed refresh leaves the cache as it was
+        if failing && !is_prior {
+            return Err(Fail::Violation(
+                "cache-replaced-on-failed-refresh".into(),
+                format!("server script {} cannot yield a successful refresh, yet the cache was replaced (run: {}): {}",
+                    sc.server.name(), o.status(), tail(&all_text)),
+            ));
+        }
+        // R3: a successful refresh is committed
+        if !failing && contacted && !is_new {
+            if all_text.contains("Timeout was reached") {
+                st.class("noise:client_timed_out_on_good_server");
+            } else {
+                return Err(Fail::Violation(
+                    "refresh-not-committed".into(),
+                    format!("the server delivered a complete 200 response but the cache still holds the previous contents (run: {}): {}",
+                        o.status(), tail(&all_text)),
+                ));
+            }
+        }
+        match sc.entry {
+            Entry::Expr => {
+                // R4: rink starts, answers, and shows exactly the data that is in the cache now
+                judge_answers(o, kind, "run").map_err(|(s, m)| Fail::Violation(s, m))?;
+            }
+            Entry::Fetch => {
+                let reported_failure = o.code != Some(0) || all_text.to_lowercase().contains("fail");
+                if !is_new && !reported_failure {
+                    return Err(Fail::Violation(
+                        "fetch-reported-success-without-refresh".into(),
+                        format!("--fetch-currency exited 0 without a failure message but the cache was not replaced: {}", tail(&all_text)),
+                    ));
+                }
+                if is_new && o.code != Some(0) && !is_prior {
+                    return Err(Fail::Violation(
+                        "fetch-reported-failure-but-replaced-cache".into(),
+                        format!("--fetch-currency ended with {} but the cache was replaced: {}", o.status(), tail(&all_text)),
+                    ));
+                }
+            }
+        }
+    }
+
+    // --- follow-up start with the server gone
+    home.write_config(refused_port).or_else(inf("scratch"))?;
+    let mut c = home.command(&su.rink);
+    c.args([EXPR_PLAIN, EXPR_MARKER]);
+    let fo = home.run(c, "followup").or_else(inf("watchdog"))?;
+    judge_answers(&fo, kind, "next-start").map_err(|(s, m)| Fail::Violation(s, m))?;
+    let after = std::fs::read(&cache_file).ok();
+    if after != fin {
+        return Err(Fail::Violation(
+            "next-start-changed-cache".into(),
+            format!("a start with the server refusing connections changed the cache file ({:?} -> {:?} bytes)",
+                fin.as_ref().map(|b| b.len()), after.as_ref().map(|b| b.len())),
+        ));
+    }
+    Ok(())
+}
+
+// ---------------------------------------------------------------------------
+// scenario lists
+// ---------------------------------------------------------------------------
+
+fn combos() -> Vec<(Prior, Entry)> {
+    let mut v = vec![];
+    for p in PRIORS {
+        for e in [Entry::Expr, Entry::Fetch] {
+            v.push((p, e));
+        }
+    }
+    v
+}
+
+const STATUSES: [(u16, ErrBody); 5] = [
+    (301, ErrBody::Text),
+    (404, ErrBody::Text),
+    (404, ErrBody::NewSmall),
+    (500, ErrBody::Text),
+    (503, ErrBody::Empty),
+];
+
+fn fixed_servers(ls: u64, lp: u64) -> Vec<Server> {
+    let mut v = vec![
+        Server::Complete { body: Body::Small },
+        Server::Complete { body: Body::Padded },
+        Server::ChunkedComplete { body: Body::Padded },
+        Server::StallBeforeHeaders,
+        Server::StallMidBody { body: Body::Small, k: ls / 3 },
+        Server::StallMidBody { body: Body::Padded, k: lp / 3 },
+        Server::Refused,
+        Server::HeaderCut { k: 10, rst: false },
+        Server::HeaderCut { k: 10_000, rst: true },
+        Server::ChunkedCutAfter { body: Body::Small, k: 0 },
+        Server::ChunkedCutAfter { body: Body::Small, k: 5000 },
+        Server::ChunkedCutAfter { body: Body::Padded, k: 100_000 },
+    ];
+    for (s, b) in STATUSES {
+        v.push(Server::Status { status: s, body: b });
+    }
+    v
+}
+
+fn quick_cuts(ls: u64, lp: u64) -> Vec<(Body, u64)> {
+    let mut v = vec![];
+    for k in [0, 1, 2, 100, 1000, 4095, 4096, 4097, ls / 2, ls - 2, ls - 1] {
+        v.push((Body::Small, k.min(ls - 1)));
+    }
+    for k in [
+        0, 1, 8191, 8192, 8193, 16383, 16384, 16385, 32768, 65535, 65536, 65537, 100_000, 131_072, 150_000, 200_000,
+        262_144, 300_000, lp - 16385, lp - 16384, lp - 8192, lp - 4096, lp - 100, lp - 2, lp - 1,
+    ] {
+        v.push((Body::Padded, k.min(lp - 1)));
+    }
+    v.dedup();
+    v
+}
+
+fn thorough_cuts(ls: u64, lp: u64) -> Vec<(Body, u64)> {
+    let mut s = BTreeSet::new();
+    for (b, k) in quick_cuts(ls, lp) {
+        s.insert((b, k));
+    }
+    let mut k = 0;
+    while k < ls {
+        s.insert((Body::Small, k));
+        k += 64;
+    }
+    let mut m = 8192u64;
+    while m < lp + 8192 {
+        for k in [m - 1, m, m + 1] {
+            if k < lp {
+                s.insert((Body::Padded, k));
+            }
+        }
+        m += 8192;
+    }
+    s.into_iter().collect()
+}
+
+fn grid(tier: Tier, ls: u64, lp: u64) -> Vec<Scenario> {
+    let cs = combos();
+    let mut out = vec![];
+    for sv in fixed_servers(ls, lp) {
+        for (p, e) in &cs {
+            out.push(Scenario { prior: *p, server: sv.clone(), entry: *e, kill: Kill::None });
+        }
+    }
+    match tier {
+        Tier::Quick => {
+            for (i, (b, k)) in quick_cuts(ls, lp).into_iter().enumerate() {
+                // two (prior, entry) combinations per cut point, rotating; FIN and RST
+                for (j, rst) in [(i % cs.len(), i % 2 == 0), ((i * 3 + 5) % cs.len(), i % 2 != 0)] {
+                    let (p, e) = cs[j];
+                    out.push(Scenario { prior: p, server: Server::CutAfter { body: b, k, rst }, entry: e, kill: Kill::None });
+                }
+            }
+        }
+        Tier::Thorough => {
+            for (b, k) in thorough_cuts(ls, lp) {
+                for (p, e) in &cs {
+                    for rst in [false, true] {
+                        out.push(Scenario { prior: *p, server: Server::CutAfter { body: b, k, rst }, entry: *e, kill: Kill::None });
+                    }
+                }
+            }
+            // every k of the small body, previous cache stale
+            for k in 0..ls {
+                let e = if k % 2 == 0 { Entry::Fetch } else { Entry::Expr };
+                out.push(Scenario { prior: Prior::Stale, server: Server::CutAfter { body: Body::Small, k, rst: k % 4 >= 2 }, entry: e, kill: Kill::None });
+            }
+            let mut m = 4096u64;
+            while m < lp {
+                for k in [m - 1, m, m + 1] {
+                    for (p, e) in &cs {
+                        out.push(Scenario { prior: *p, server: Server::ChunkedCutAfter { body: Body::Padded, k }, entry: *e, kill: Kill::None });
+                    }
+                }
+                m += 4096 * 4;
+            }
+            for i in 0..20u64 {
+                for (p, e) in &cs {
+                    out.push(Scenario { prior: *p, server: Server::StallMidBody { body: Body::Padded, k: i * lp / 20 }, entry: *e, kill: Kill::None });
+                }
+            }
+        }
+    }
+    out
+}
+
+/// (prior, entry) combinations in which a refresh is attempted, i.e. can be interrupted
+fn kill_combos() -> Vec<(Prior, Entry)> {
+    vec![
+        (Prior::Stale, Entry::Expr),
+        (Prior::Stale, Entry::Fetch),
+        (Prior::Absent, Entry::Expr),
+        (Prior::Absent, Entry::Fetch),
+        (Prior::Unreadable, Entry::Expr),
+        (Prior::Unreadable, Entry::Fetch),
+        (Prior::Fresh, Entry::Fetch),
+    ]
+}
+
+pub type KillTable = BTreeMap<(Prior, Entry, Body), Vec<KillPoint>>;
+
+/// run the scenario once under plain strace and list the syscalls that touch the cache directory
+fn dry_run(env: &Env, prior: Prior, entry: Entry, body: Body) -> Result<Vec<KillPoint>, String> {
+    if let Some(b) = &env.broken {
+        return Err(b.clone());
+    }
+    let su = &env.setup;
+    let set = su.strace.clone().ok_or("no strace")?;
+    let dir = scratch("dry")?;
+    let _g = DirGuard(dir.clone());
+    let home = Home::new(&dir)?;
+    if let Some(p) = su.data.prior_bytes(prior) {
+        std::fs::create_dir_all(home.cache_dir()).map_err(|e| e.to_string())?;
+        std::fs::write(home.cache_file(), p).map_err(|e| e.to_string())?;
+        set_mtime_ago(&home.cache_file(), if prior == Prior::Fresh { 60 } else { 7200 })?;
+    }
+    let server = env.start_server(&Server::Complete { body }, &dir)?.ok_or("no server")?;
+    home.write_config(server.port)?;
+    let log = dir.join("dry.strace");
+    let c = strace_command(&home, &su.rink, &set, &log, None, &rink_args(entry));
+    let o = home.run(c, "dry")?;
+    if o.code != Some(0) {
+        return Err(format!("dry run ended with {}: {}", o.status(), tail(&o.all())));
+    }
+    let text = std::fs::read_to_string(&log).map_err(|e| e.to_string())?;
+    Ok(kill_points(&text, &home.cache_dir().to_string_lossy()))
+}
+
+fn build_kill_table(cx: &Cx, setup: &Arc<Setup>) -> Result<KillTable, String> {
+    let mut items = vec![];
+    for (p, e) in kill_combos() {
+        for b in [Body::Small, Body::Padded] {
+            items.push((p, e, b));
+        }
+    }
+    let items = Arc::new(items);
+    let n = cx.threads.max(1).min(items.len());
+    let su = setup.clone();
+    let it = items.clone();
+    let results = par_shards(n, move |i, n| {
+        let env = mk_env(su.clone(), BTreeSet::new());
+        let mut out = vec![];
+        let mut idx = i;
+        while idx < it.len() {
+            let (p, e, b) = it[idx];
+            out.push(((p, e, b), dry_run(&env, p, e, b)));
+            idx += n;
+        }
+        out
+    });
+    let mut table = KillTable::new();
+    for (k, r) in results.into_iter().flatten() {
+        let pts = r.map_err(|e| format!("dry run {:?}: {}", k, e))?;
+        if pts.is_empty() {
+            return Err(format!("dry run {:?} saw no syscall touching the cache directory", k));
+        }
+        table.insert(k, pts);
+    }
+    Ok(table)
+}
+
+fn kill_scenarios(tier: Tier, table: &KillTable) -> Vec<Scenario> {
+    let mut ess = vec![];
+    let mut rest = vec![];
+    for ((p, e, b), pts) in table {
+        for kp in pts {
+            let sc = Scenario {
+                prior: *p,
+                server: Server::Complete { body: *b },
+                entry: *e,
+                kill: Kill::Syscall { name: kp.name.clone(), when: kp.when },
+            };
+            if kp.essential && *p == Prior::Stale {
+                ess.push(sc);
+            } else {
+                rest.push(sc);
+            }
+        }
+    }
+    if tier == Tier::Thorough {
+        ess.extend(rest);
+        return ess;
+    }
+    let budget = 56usize;
+    ess.truncate(budget - 12);
+    let want = budget - ess.len();
+    let step = (rest.len() / want.max(1)).max(1);
+    let picked: Vec<Scenario> = rest.into_iter().step_by(step).take(want).collect();
+    ess.extend(picked);
+    ess
+}
+
+fn paced_scenarios(tier: Tier, ls: u64, lp: u64, all_kills: bool) -> Vec<Scenario> {
+    let n = if all_kills { tier.pick(48u64, 600) } else { tier.pick(8u64, 64) };
+    let kc = kill_combos();
+    let mut out = vec![];
+    for i in 0..n {
+        let (p, e) = kc[(i as usize) % kc.len()];
+        let server = if i % 8 == 7 {
+            Server::StallBeforeHeaders
+        } else if i % 3 == 0 {
+            Server::StallMidBody { body: Body::Small, k: (i * 977) % ls }
+        } else {
+            Server::StallMidBody { body: Body::Padded, k: (i * 40_009) % lp }
+        };
+        out.push(Scenario { prior: p, server, entry: e, kill: Kill::ServerPaced });
+    }
+    out
+}
+
+// ---------------------------------------------------------------------------
+// random scenarios
+// ---------------------------------------------------------------------------
+
+fn server_strategy(ls: u64, lp: u64) -> BoxedStrategy<Server> {
+    let body = prop_oneof![Just(Body::Small), Just(Body::Padded)].boxed();
+    let body_k = prop_oneof![
+        (0..ls).prop_map(|k| (Body::Small, k)),
+        (0..lp).prop_map(|k| (Body::Padded, k))
+    ]
+    .boxed();
+    let status = proptest::sample::select(vec![301u16, 302, 304, 400, 403, 404, 429, 500, 502, 503]);
+    let eb = proptest::sample::select(vec![ErrBody::Empty, ErrBody::Text, ErrBody::NewSmall]);
+    prop_oneof![
+        2 => body.clone().prop_map(|b| Server::Complete { body: b }),
+        1 => body.clone().prop_map(|b| Server::ChunkedComplete { body: b }),
+        6 => (body_k.clone(), any::<bool>()).prop_map(|((b, k), rst)| Server::CutAfter { body: b, k, rst }),
+        3 => body_k.clone().prop_map(|(b, k)| Server::ChunkedCutAfter { body: b, k }),
+        1 => (0u64..200, any::<bool>()).prop_map(|(k, rst)| Server::HeaderCut { k, rst }),
+        4 => (status, eb).prop_map(|(s, b)| Server::Status { status: s, body: b }),
+        1 => Just(Server::StallBeforeHeaders),
+        2 => body_k.clone().prop_map(|(b, k)| Server::StallMidBody { body: b, k }),
+        1 => Just(Server::Refused),
+    ]
+    .boxed()
+}
+
+fn scenario_strategy(ls: u64, lp: u64, table: Arc<KillTable>) -> BoxedStrategy<Scenario> {
+    let prior = proptest::sample::select(PRIORS.to_vec());
+    let entry = proptest::sample::select(vec![Entry::Expr, Entry::Fetch]);
+    let plain = (prior, entry.clone(), server_strategy(ls, lp))
+        .prop_map(|(p, e, s)| Scenario { prior: p, server: s, entry: e, kill: Kill::None });
+    let kc = proptest::sample::select(kill_combos());
+    let body = prop_oneof![Just(Body::Small), Just(Body::Padded)];
+    let t2 = table.clone();
+    let have_table = !table.is_empty();
+    let strace_kill = (kc.clone(), body, any::<proptest::sample::Index>(), 0u64..lp).prop_map(move |((p, e), b, idx, k)| {
+        match t2.get(&(p, e, b)) {
+            Some(pts) if !pts.is_empty() => {
+                let kp = &pts[idx.index(pts.len())];
+                Scenario {
+                    prior: p,
+                    server: Server::Complete { body: b },
+                    entry: e,
+                    kill: Kill::Syscall { name: kp.name.clone(), when: kp.when },
+                }
+            }
+            _ => Scenario {
+                prior: p,
+                server: Server::StallMidBody { body: Body::Padded, k },
+                entry: e,
+                kill: Kill::ServerPaced,
+            },
+        }
+    });
+    let paced = (kc, 0u64..lp).prop_map(|((p, e), k)| Scenario {
+        prior: p,
+        server: Server::StallMidBody { body: Body::Padded, k },
+        entry: e,
+        kill: Kill::ServerPaced,
+    });
+    let _ = have_table;
+    prop_oneof![7 => plain, 2 => strace_kill, 1 => paced].boxed()
+}
+
+// ---------------------------------------------------------------------------
+// entry points
+// ---------------------------------------------------------------------------
+
+fn to_json(sc: &Scenario) -> J {
+    serde_json::to_value(sc).unwrap_or(J::Null)
+}
+
+pub fn run(cx: &Cx) -> Report {
+    let mut rep = Report::new(RULE);
+    rep.level = "fault_enumeration";
+    rep.assumptions = vec![
+        "rename(2) is atomic (POSIX); kill -9 semantics only: no power-loss simulation, so a missing fsync is not observable".into(),
+        "SIGKILL is injected at the entry of a traced syscall of the client (the syscall is not executed); every boundary between two file-system syscalls that touch the cache directory is a kill point, the inside of a syscall is not".into(),
+        "a 200 response with neither Content-Length nor chunked framing that closes early is indistinguishable from a complete one and is not generated".into(),
+        "a refresh that fails leaves the cache as it was: for non-200 responses carrying the complete new JSON as body, the previous contents are the only accepted result".into(),
+        "stalls last until the client gives up (server waits for the client's close, cap 15 s); no assertion depends on how fast anything runs; a client-side timeout against a healthy server is counted as noise, not judged".into(),
+        "temporary files with other names left in the cache directory after a kill are logged, not violations (rink never reads them)".into(),
+        "rink binary = dev-profile build of /repo's working tree in harness/target-rink (or RV_RINK_BIN)".into(),
+    ];
+    let su = match setup() {
+        Ok(s) => Arc::new(s),
+        Err(e) => {
+            rep.inconclusive = Some(format!("infrastructure: {}", e));
+            return rep;
+        }
+    };
+    let ls = su.data.new_small.len() as u64;
+    let lp = su.data.new_padded.len() as u64;
+    rep.stats.note("rink_binary", json!(su.rink.to_string_lossy()));
+    rep.stats.note("strace", json!(su.strace_note));
+    rep.stats.note("body_bytes", json!({"old": su.data.old.len(), "new_small": ls, "new_padded": lp}));
+    let known = cx.known.clone();
+
+    crate::regress::run(cx, &mut rep, &replay);
+    rep.mark(cx, "regress");
+
+    // phase 1: the grid without kills
+    let items = grid(cx.tier, ls, lp);
+    rep.stats.note("scenarios_grid", json!(items.len()));
+    let (s1, k1) = (su.clone(), known.clone());
+    rep.absorb(par_sweep(cx, "grid", items, move || mk_env(s1.clone(), k1.clone()), execute, to_json));
+    rep.mark(cx, "grid");
+
+    // phase 2: kill points
+    let mut table = KillTable::new();
+    let mode;
+    if su.strace.is_some() {
+        match build_kill_table(cx, &su) {
+            Ok(t) => table = t,
+            Err(e) => {
+                rep.inconclusive = Some(format!("infrastructure: {}", e));
+                return rep;
+            }
+        }
+        mode = "strace-inject (SIGKILL at syscall entry) + a few server-paced kills";
+        let total: usize = table.values().map(|v| v.len()).sum();
+        rep.stats.note("kill_points_observed", json!(total));
+        let per: BTreeMap<String, usize> = table.iter().map(|(k, v)| (format!("{:?}", k), v.len())).collect();
+        rep.stats.note("kill_points_per_dry_run", json!(per));
+        let items = kill_scenarios(cx.tier, &table);
+        rep.stats.note("scenarios_kill_strace", json!(items.len()));
+        let (s2, k2) = (su.clone(), known.clone());
+        rep.absorb(par_sweep(cx, "kill", items, move || mk_env(s2.clone(), k2.clone()), execute, to_json));
+    } else {
+        mode = "server-paced only (strace fault injection unavailable)";
+    }
+    rep.stats.note("kill_mode", json!(mode));
+    let items = paced_scenarios(cx.tier, ls, lp, su.strace.is_none());
+    rep.stats.note("scenarios_kill_server_paced", json!(items.len()));
+    let (s3, k3) = (su.clone(), known.clone());
+    rep.absorb(par_sweep(cx, "kill-paced", items, move || mk_env(s3.clone(), k3.clone()), execute, to_json));
+    rep.mark(cx, "kill");
+
+    // phase 3: random combinations
+    let cases = cx.tier.pick(48u64, 3000);
+    let table = Arc::new(table);
+    let (s4, k4) = (su.clone(), known.clone());
+    rep.absorb(par_proptest(
+        cx,
+        "random",
+        cases,
+        move || scenario_strategy(ls, lp, table.clone()),
+        move || mk_env(s4.clone(), k4.clone()),
+        execute,
+        to_json,
+    ));
+    rep.mark(cx, "random");
+
+    let infra: Vec<String> = rep
+        .stats
+        .classes
+        .iter()
+        .filter(|(k, _)| k.starts_with("infra:"))
+        .map(|(k, v)| format!("{} x{}", k, v))
+        .collect();
+    if !infra.is_empty() {
+        rep.inconclusive = Some(format!("infrastructure trouble in some scenarios: {}", infra.join(", ")));
+    } else if rep.stats.evaluations == 0 || rep.stats.nontrivial.is_empty() {
+        rep.inconclusive = Some("vacuous run: no non-trivial scenario was executed".into());
+    }
     rep
 }
 
-pub fn replay(_cx: &Cx, _phase: &str, _case: &J, _st: &mut Stats) -> CaseResult {
-    Err("not implemented".into())
+pub fn replay(cx: &Cx, _phase: &str, case: &J, st: &mut Stats) -> CaseResult {
+    let sc: Scenario = serde_json::from_value(case.clone()).map_err(|e| format!("bad case: {}", e))?;
+    let su = Arc::new(setup().map_err(|e| format!("infrastructure: {}", e))?);
+    let env = mk_env(su, cx.known.clone());
+    let r = execute(&env, &sc, st);
+    let infra: Vec<&String> = st.classes.keys().filter(|k| k.starts_with("infra:")).collect();
+    if !infra.is_empty() {
+        eprintln!("[C20] replay hit infrastructure trouble: {:?} {:?}", infra, st.notes);
+    }
+    r
 }
